@@ -21,6 +21,46 @@ func dischargeNE(c *Ctx, p *core.Prog, o *eng.NEObligation) (bool, string) {
 	if l, ok := eng.MapValuesMinLen(o.Instr, o.Container); ok && l >= o.Need {
 		return true, fmt.Sprintf("value of a successful map lookup; every value stored in that map has length >= %d", l)
 	}
+	// a parameter of an unexported function: the bound holds at every call site
+	if prm, isPrm := core.Unspill(o.Container).(*ssa.Parameter); isPrm {
+		fn := prm.Parent()
+		if fn.Object() != nil && !fn.Object().Exported() && fn.Parent() == nil {
+			idx := -1
+			for i, q := range fn.Params {
+				if q == prm {
+					idx = i
+				}
+			}
+			n, okAll := 0, true
+			for _, g := range p.SrcFuncs(core.FuncPkgPath(fn)) {
+				for _, call := range core.CallsIn(g) {
+					if eng.ResolveCallee(call.Common().Value) != fn || idx < 0 || idx >= len(call.Common().Args) {
+						continue
+					}
+					n++
+					arg := call.Common().Args[idx]
+					if lb, _ := eng.LowerBoundFromFacts(call, arg); lb >= o.Need {
+						continue
+					}
+					if eng.MinLen(arg) >= o.Need {
+						continue
+					}
+					okAll = false
+				}
+			}
+			// the function value must not escape (be called through a variable)
+			if refs := fn.Referrers(); refs != nil {
+				for _, r := range *refs {
+					if _, isCall := r.(ssa.CallInstruction); !isCall {
+						okAll = false
+					}
+				}
+			}
+			if n > 0 && okAll {
+				return true, fmt.Sprintf("parameter of an unexported function: all %d call sites pass a value of length >= %d (guard or construction at the call)", n, o.Need)
+			}
+		}
+	}
 	// guard on a pure accessor of the same receiver, e.g. `i+1 != d.size()`: not a bound
 	// docs-key provenance for the three key decoders
 	if ok, why := docsKeyProvenance(c, p, o); ok {
@@ -141,6 +181,12 @@ func tracesToDocsKey(p *core.Prog, fn *ssa.Function, prm *ssa.Parameter, depth i
 			if strings.HasSuffix(core.AP(arg), ".origin") {
 				continue
 			}
+			// a field of a small state struct that is only ever stored a docs key (x.id = id)
+			if ld, ok := arg.(*ssa.UnOp); ok {
+				if fa, ok := ld.X.(*ssa.FieldAddr); ok && fieldHoldsDocsKey(p, fa, depth, seen) {
+					continue
+				}
+			}
 			return false, ""
 		}
 	}
@@ -148,6 +194,41 @@ func tracesToDocsKey(p *core.Prog, fn *ssa.Function, prm *ssa.Parameter, depth i
 		return false, ""
 	}
 	return true, fmt.Sprintf("%d call sites of %s", n, core.ShortFn(fn))
+}
+
+// fieldHoldsDocsKey: every store into this field (of this struct type, anywhere in v2) stores a key of Classifier.docs.
+func fieldHoldsDocsKey(p *core.Prog, fa *ssa.FieldAddr, depth int, seen map[*ssa.Parameter]bool) bool {
+	st := core.StructOf(fa.X.Type())
+	if st == nil {
+		return false
+	}
+	n := 0
+	for _, g := range p.SrcFuncs(core.V2Mod) {
+		for _, b := range g.Blocks {
+			for _, in := range b.Instrs {
+				s2, ok := in.(*ssa.Store)
+				if !ok {
+					continue
+				}
+				fa2, ok := s2.Addr.(*ssa.FieldAddr)
+				if !ok || fa2.Field != fa.Field || core.StructOf(fa2.X.Type()) != st {
+					continue
+				}
+				n++
+				v := core.Unspill(s2.Val)
+				if isDocsKey(v, 0) {
+					continue
+				}
+				if prm, isPrm := v.(*ssa.Parameter); isPrm {
+					if ok2, _ := tracesToDocsKey(p, g, prm, depth+1, seen); ok2 {
+						continue
+					}
+				}
+				return false
+			}
+		}
+	}
+	return n > 0
 }
 
 // isDocsKey: v is the key of a range over a map whose keys are keys of Classifier.docs.
